@@ -11,6 +11,8 @@ CONV = ("document::as_position", "document::as_pos_range")  # default; replaced 
 
 def _defs(body):
     d = {}
+    mutated = set()
+    counted = set()
     for l in hir.nodes(body["body"]):
         pat = init = None
         if l.get("k") == "Let" and l.get("init") is not None:
@@ -26,12 +28,22 @@ def _defs(body):
             else:
                 for bd in hir.pat_bindings(pat):
                     d[bd["id"]] = init
+        elif l.get("k") in ("Assign", "AssignOp"):
+            # a local that is written after its `let` is not what its initialiser says (`let mut line = 0; .. line += 1;`)
+            pl_ = hir.path_local(hir.strip(l["l"]))
+            if pl_:
+                mutated.add(pl_["id"])
+                if l.get("k") == "AssignOp":
+                    counted.add(pl_["id"])
         elif l.get("k") == "MethodCall" and l["m"] in ("map", "and_then", "map_or", "map_or_else"):
             # the parameter of the closure receives what the receiver holds (`range.map(|range| Location { uri, range })`)
             cl_ = hir.strip(l["args"][-1]) if l["args"] else {}
             if cl_.get("k") == "Closure" and len(cl_.get("params") or []) == 1:
                 for bd in hir.pat_bindings(cl_["params"][0]):
                     d.setdefault(bd["id"], l["recv"])
+    for i_ in mutated:
+        if i_ in d and (hir.strip(d[i_]).get("k") == "Lit" or i_ in counted):
+            d[i_] = {"k": "Computed", "sp": d[i_].get("sp")}
     return d
 
 
@@ -266,6 +278,30 @@ def rule_pos_conv(prog):
                         c.loc(fld["sp"]),
                         "a client-supplied line/character is interpreted outside document::get_insertion_index, the one place that "
                         "maps UTF-16 columns to byte offsets")
+    # `rangeLength` of a content change counts UTF-16 code units (and is deprecated): it is not a byte length.  The server derives the
+    # replaced span from `range` through the conversion functions only
+    rl_bad = None
+    n_rl = 0
+    for b in bodies:
+        for x in hir.nodes(b["body"]):
+            if x.get("k") == "Field" and x["name"] == "range_length":
+                rl_bad = rl_bad or (b, x)
+            pats_ = [x["pat"]] if x.get("k") in ("Let", "LetExpr") and x.get("pat") else [a_["pat"] for a_ in x["arms"]] if x.get("k") == "Match" else \
+                list(x.get("params") or []) if x.get("k") == "Closure" else []
+            for pt in pats_:
+                for sp_ in _struct_pats(pt):
+                    if "TextDocumentContentChangeEvent" not in (hir.pat_variant(sp_) or sp_.get("adt") or ""):
+                        continue
+                    n_rl += 1
+                    for f_ in sp_["fields"]:
+                        if f_["name"] == "range_length":
+                            for bd in hir.pat_bindings(f_["pat"]):
+                                if any(p_["res"].get("k") == "Local" and p_["res"]["id"] == bd["id"] for p_ in hir.nodes(b["body"], "Path")):
+                                    rl_bad = rl_bad or (b, f_["pat"])
+    out.add("TextDocumentContentChangeEvent.range_length", "the replaced span comes from `range` through the conversion functions, never from rangeLength",
+            rl_bad is None, c.loc(rl_bad[1]["sp"]) if rl_bad else "", ("%s reads `rangeLength`; " % rl_bad[0]["d"] if rl_bad else "") +
+            "rangeLength counts UTF-16 code units: used as a byte length it cuts a non-ASCII character in two (`replace_range` panics, the "
+            "document broker dies) or replaces a span the client did not mean", ("rangelen",))
     # the unit the conversions implement is the unit that is promised: no position encoding other than UTF-16 is announced
     bad = None
     for b in bodies:
@@ -1005,6 +1041,87 @@ def rule_req_pure(prog):
                 "the handler reads `params.context`: the active parameter is the number of commas between the opening parenthesis and the "
                 "cursor however the request came about - with a shortcut for a typed `(`, a parenthesis typed inside the second argument "
                 "answers parameter 0")
+    # the count itself: the loop that counts the commas in front of the cursor reacts to no other kind of token (a `)` of a
+    # parenthesised argument expression does not end the argument list, a `(` does not restart the count)
+    TT_ = "spl_frontend::tokens::TokenType::"
+    n_cnt = 0
+    for b in c.bodies:
+        if not b["p"].startswith("lsp4spl::features::signature_help") or "/tests" in c.file_of(b["sp"]) or b["k"] not in ("fn", "assoc_fn"):
+            continue
+        for loop in hir.nodes(b["body"]):
+            if loop.get("k") not in ("ForLoop", "While", "Loop", "Closure"):
+                continue
+            body_ = loop["body"]
+            # counts commas: `+= 1` under a test for TokenType::Comma
+            counts = False
+            tests = []   # (variants, effect node)
+            for x, ps in hir.walk(body_):
+                if x.get("k") == "Match":
+                    for a_ in x["arms"]:
+                        vs_ = [v_ for v_ in hir.pat_variants_all(a_["pat"]) if v_.startswith(TT_)]
+                        if vs_:
+                            tests.append((vs_, a_["body"]))
+                elif x.get("k") == "If" and hir.strip(x["cond"]).get("k") == "LetExpr":
+                    vs_ = [v_ for v_ in hir.pat_variants_all(hir.strip(x["cond"])["pat"]) if v_.startswith(TT_)]
+                    if vs_:
+                        tests.append((vs_, x["then"]))
+                elif x.get("k") == "If":
+                    # `if matches!(token.token_type, TokenType::Comma) { .. }`: the matches! is a Match with literal arms in the condition
+                    for m_ in hir.nodes(x["cond"], "Match"):
+                        for a_ in m_["arms"]:
+                            vs_ = [v_ for v_ in hir.pat_variants_all(a_["pat"]) if v_.startswith(TT_)]
+                            if vs_ and hir.lit_value(a_["body"]) is True:
+                                tests.append((vs_, x["then"]))
+            for vs_, eff in tests:
+                if TT_ + "Comma" in vs_ and any(y.get("k") == "AssignOp" and y.get("op") in ("+=", "Add") for y in hir.nodes(eff)):
+                    counts = True
+            if not counts:
+                continue
+            n_cnt += 1
+            other = None
+            for vs_, eff in tests:
+                if any(v_ != TT_ + "Comma" for v_ in vs_) and any(
+                        y.get("k") in ("Ret", "Break", "Continue", "Assign", "AssignOp") for y in hir.nodes(eff)):
+                    other = other or (vs_, eff)
+            out.add(b["d"], "the comma count reacts to commas only", other is None, c.loc((other[1] if other else loop)["sp"]),
+                    ("tokens of kind %s change the count or end it; " % [v_.rsplit("::", 1)[-1] for v_ in other[0]] if other else "") +
+                    "the active parameter is the number of commas between the opening parenthesis and the cursor: behind a parenthesised "
+                    "argument expression (`f((a + 1) * 2, |b)`) another answer is wrong", ("commas",))
+            break
+    if n_cnt < 1:
+        # iterator form: `tokens.iter().take_while(..).filter(|t| matches!(t.token_type, TokenType::Comma)).count()` (or a fold)
+        def _tt_variants(root):
+            vs_ = []
+            for x in hir.nodes(root):
+                pats_ = [a_["pat"] for a_ in x["arms"]] if x.get("k") == "Match" else [x["pat"]] if x.get("k") == "LetExpr" and x.get("pat") else []
+                for pt in pats_:
+                    vs_ += [v_ for v_ in hir.pat_variants_all(pt) if v_.startswith(TT_)]
+            return vs_
+        for b in c.bodies:
+            if not b["p"].startswith("lsp4spl::features::signature_help") or "/tests" in c.file_of(b["sp"]) or b["k"] not in ("fn", "assoc_fn"):
+                continue
+            for x, ps in hir.walk(b["body"]):
+                if x.get("k") != "MethodCall" or x["m"] not in ("filter", "filter_map") or not x["args"]:
+                    continue
+                if TT_ + "Comma" not in _tt_variants(x["args"][0]):
+                    continue
+                # the whole chain this adaptor is part of
+                top = x
+                for q_ in reversed(ps):
+                    if q_.get("k") == "MethodCall" and any(z_ is top for z_ in hir.nodes(q_["recv"])):
+                        top = q_
+                    elif q_.get("k") not in ("Paren",):
+                        break
+                if not any(z_.get("k") == "MethodCall" and z_["m"] in ("count", "fold", "sum") for z_ in hir.nodes(top)):
+                    continue
+                n_cnt += 1
+                other = [v_ for cl_ in hir.nodes(top, "Closure") for v_ in _tt_variants(cl_) if v_ != TT_ + "Comma"]
+                out.add(b["d"], "the comma count reacts to commas only", not other, c.loc(x["sp"]),
+                        ("tokens of kind %s cut or filter the count; " % sorted(set(v_.rsplit("::", 1)[-1] for v_ in other)) if other else "") +
+                        "the active parameter is the number of commas between the opening parenthesis and the cursor: behind a parenthesised "
+                        "argument expression (`f((a + 1) * 2, |b)`) another answer is wrong", ("commas",))
+    if n_cnt < 1:
+        out.missing("the code of features::signature_help that counts commas (found %d)" % n_cnt)
     return out
 
 
